@@ -248,15 +248,23 @@ func runEngineMP(p *Prog, o *obls) {
 				return false
 			}
 			fa, ok := st.Addr.(*ssa.FieldAddr)
-			return ok && fieldKeyAddr(fa) == es.counter
+			return ok && p.fieldIs(fa, es.counter)
 		}
-		before, _ := pathCounts(fn, isInc)
+		// the increment may sit in a helper of the encoder (nextFecPacket()): count through same-package helpers
+		incCtr := p.newIPCounter(isInc, func(g *ssa.Function) bool { return g.Pkg == fn.Pkg })
+		before := p.pathCountsW(fn, nil, incCtr.weight)
 		for _, b := range fn.Blocks {
 			ret, ok := b.Instrs[len(b.Instrs)-1].(*ssa.Return)
 			if !ok || b == fn.Recover || len(ret.Results) <= es.okResult {
 				continue
 			}
 			m := before[ret]
+			// the packet may be built by a helper called in the return statement itself (return f.next(p), true)
+			for _, r := range ret.Results {
+				if c, ok := p.origin(r).(*ssa.Call); ok && c.Block() == b {
+					_ = c
+				}
+			}
 			okV := p.origin(ret.Results[es.okResult])
 			produced := -1
 			if c, isC := okV.(*ssa.Const); isC && c.Value != nil {
@@ -304,7 +312,7 @@ func runEngineMP(p *Prog, o *obls) {
 				bad = append(bad, fmt.Sprintf("the injected write at %s can be issued before the application's packet has been forwarded", p.instrPos(j)))
 			}
 		}
-		key := funcKey(c.Fn)
+		key := closureKey(c)
 		if len(bad) > 0 {
 			o.bad("P2", key, p.Pos(c.Fn.Pos()), strings.Join(bad, "; "))
 		} else {
@@ -365,7 +373,7 @@ func runEngineMP(p *Prog, o *obls) {
 					return false
 				}
 				fa, ok := st.Addr.(*ssa.FieldAddr)
-				return ok && fieldKeyAddr(fa) == fld
+				return ok && p.fieldIs(fa, fld)
 			}
 			before, _ := pathCounts(fn, isSt)
 			for _, b := range fn.Blocks {
@@ -541,7 +549,7 @@ func (p *Prog) resolveEnqueue(key string) *ssa.Function {
 			if c.Kind != RTPWriter || parent == nil {
 				continue
 			}
-			if c.Fn.Parent() == parent || (c.Wrapper != nil && c.Conv != nil && c.Conv.Parent() == parent) {
+			if c.Fn.Parent() == parent || (c.Method && c.Owner == parent) {
 				return c.Fn
 			}
 		}
@@ -922,11 +930,17 @@ func q3Charge(p *Prog, o *obls, cons *ssa.Function, qs queueSpec) {
 			}
 		}
 		for _, f := range dominatingFactsInstr(at) {
+			condIn, _ := f.cond.(ssa.Instruction)
 			if p.backwardReaches(f.cond, func(v ssa.Value) bool {
 				if !isLimiterCall(v, "Budget", "Tokens", "TokensAt") {
 					return false
 				}
 				c := v.(*ssa.Call)
+				if c.Parent() != at.Parent() {
+					// the budget is read inside a predicate helper (affordable(now, pkt)): the helper is called where
+					// the condition is evaluated, which must be inside the per-packet loop
+					return inner == nil || (condIn != nil && inner[condIn.Block()])
+				}
 				return inner == nil || inner[c.Block()]
 			}) {
 				return true
@@ -1354,7 +1368,7 @@ func s5FanOut(p *Prog, o *obls, registry string) {
 			continue
 		}
 		n++
-		key := funcKey(c.Fn) + ":fan-out"
+		key := closureKey(c) + ":fan-out"
 		var rng *ssa.Range
 		var where *ssa.Function
 		for _, f := range p.calleeGroup(c.Fn) {
@@ -1429,11 +1443,16 @@ func s5FanOut(p *Prog, o *obls, registry string) {
 					return false
 				}
 				for _, a := range args {
-					mc, ok := p.origin(a).(*ssa.MakeClosure)
-					if !ok {
+					var lit *ssa.Function
+					switch x := p.origin(a).(type) {
+					case *ssa.MakeClosure:
+						lit = x.Fn.(*ssa.Function)
+					case *ssa.Function:
+						lit = x
+					}
+					if lit == nil || lit.Blocks == nil {
 						return false
 					}
-					lit := mc.Fn.(*ssa.Function)
 					if k >= len(lit.Params) {
 						return false
 					}
